@@ -89,6 +89,41 @@ func rootIdent(e ast.Expr) *ast.Ident {
 	}
 }
 
+// pureExpr: an expression that can be evaluated a second time without side effects
+// (identifiers, selectors, dereferences, indexing by such expressions or literals).
+func pureExpr(e ast.Expr) bool {
+	switch x := e.(type) {
+	case *ast.Ident, *ast.BasicLit:
+		return true
+	case *ast.SelectorExpr:
+		return pureExpr(x.X)
+	case *ast.StarExpr:
+		return pureExpr(x.X)
+	case *ast.ParenExpr:
+		return pureExpr(x.X)
+	case *ast.IndexExpr:
+		return pureExpr(x.X) && pureExpr(x.Index)
+	case *ast.BinaryExpr:
+		return pureExpr(x.X) && pureExpr(x.Y)
+	case *ast.UnaryExpr:
+		return x.Op != token.ARROW && x.Op != token.AND && pureExpr(x.X)
+	}
+	return false
+}
+
+// trackedDir: packages whose objects are inputs or caches that renders may share (parsed
+// stylesheets, selectors, computed values, text and image helpers): writes through pointers,
+// into slices and into struct fields are recorded there too. The layout, box and drawing
+// packages write only objects of their own render, millions of times.
+func trackedDir(relFile string) bool {
+	for _, d := range []string{"css/", "html/tree/", "text/", "svg/", "images/", "utils/", "matrix/"} {
+		if strings.HasPrefix(relFile, d) {
+			return true
+		}
+	}
+	return false
+}
+
 func isMutex(t types.Type) bool {
 	if p, ok := t.(*types.Pointer); ok {
 		t = p.Elem()
@@ -163,7 +198,7 @@ func main() {
 	}
 
 	var siteTable, uncontrolled, skippedTouch []string
-	nRange, nTouch, nY, nLock, nRead, nGW := 0, 0, 0, 0, 0, 0
+	nRange, nTouch, nY, nLock, nRead, nGW, nMW, nPW := 0, 0, 0, 0, 0, 0, 0, 0
 	siteID := 0
 	rel := func(fn string) string { return strings.TrimPrefix(fn, dir+"/") }
 
@@ -357,6 +392,15 @@ func main() {
 					}
 					if call, ok := n.X.(*ast.CallExpr); ok && len(call.Args) == 2 && len(funcStack) > 0 && funcStack[0] != "init" {
 						if fid, ok := call.Fun.(*ast.Ident); ok && fid.Name == "delete" {
+							if _, isBuiltin := p.TypesInfo.ObjectOf(fid).(*types.Builtin); isBuiltin && pureExpr(call.Args[0]) {
+								switch parent.(type) {
+								case *ast.BlockStmt, *ast.CaseClause, *ast.CommClause:
+									siteID++
+									nMW++
+									siteTable = append(siteTable, fmt.Sprintf("%d\tmwrite\t%s\t%s\t%d\t%s", siteID, rel(fn), curFunc(), tf.Line(n.Pos()), text(call.Args[0])))
+									edits = append(edits, edit{pos: off(n.End()), end: off(n.End()), text: fmt.Sprintf("; simrt.MW(%s, %d)", text(call.Args[0]), siteID), prio: 3})
+								}
+							}
 							if _, isBuiltin := p.TypesInfo.ObjectOf(fid).(*types.Builtin); isBuiltin {
 								if id := rootIdent(call.Args[0]); id != nil {
 									if v, ok := p.TypesInfo.ObjectOf(id).(*types.Var); ok && v.Parent() == p.Types.Scope() {
@@ -373,6 +417,19 @@ func main() {
 						}
 					}
 				case *ast.IncDecStmt:
+					if ix, isIx := n.X.(*ast.IndexExpr); isIx && pureExpr(ix.X) && len(funcStack) > 0 && funcStack[0] != "init" {
+						if t := p.TypesInfo.TypeOf(ix.X); t != nil {
+							if _, isMap := t.Underlying().(*types.Map); isMap {
+								switch parent.(type) {
+								case *ast.BlockStmt, *ast.CaseClause, *ast.CommClause:
+									siteID++
+									nMW++
+									siteTable = append(siteTable, fmt.Sprintf("%d\tmwrite\t%s\t%s\t%d\t%s", siteID, rel(fn), curFunc(), tf.Line(n.Pos()), text(ix.X)))
+									edits = append(edits, edit{pos: off(n.End()), end: off(n.End()), text: fmt.Sprintf("; simrt.MW(%s, %d)", text(ix.X), siteID), prio: 3})
+								}
+							}
+						}
+					}
 					if id := rootIdent(n.X); id != nil && len(funcStack) > 0 && funcStack[0] != "init" {
 						if v, ok := p.TypesInfo.ObjectOf(id).(*types.Var); ok && v.Parent() == p.Types.Scope() {
 							switch parent.(type) {
@@ -403,6 +460,68 @@ func main() {
 								nGW++
 								siteTable = append(siteTable, fmt.Sprintf("%d\tgwrite\t%s\t%s\t%d\t%s", siteID, rel(fn), curFunc(), tf.Line(n.Pos()), id.Name))
 								edits = append(edits, edit{pos: off(n.End()), end: off(n.End()), text: fmt.Sprintf("; simrt.W(%d)", siteID), prio: 2})
+							}
+							break
+						}
+					}
+					// writes through a field, a slice element or a dereference, in the packages whose
+					// objects renders may share: simrt.PW records the address
+					if n.Tok != token.DEFINE && len(funcStack) > 0 && funcStack[0] != "init" && trackedDir(rel(fn)) {
+						switch parent.(type) {
+						case *ast.BlockStmt, *ast.CaseClause, *ast.CommClause:
+							for _, lhs := range n.Lhs {
+								if !pureExpr(lhs) {
+									continue
+								}
+								ok := false
+								switch x := lhs.(type) {
+								case *ast.SelectorExpr:
+									if sel := p.TypesInfo.Selections[x]; sel != nil && sel.Kind() == types.FieldVal {
+										ok = true
+									}
+								case *ast.IndexExpr:
+									if t := p.TypesInfo.TypeOf(x.X); t != nil {
+										switch u := t.Underlying().(type) {
+										case *types.Slice, *types.Array:
+											ok = true
+										case *types.Pointer:
+											_, ok = u.Elem().Underlying().(*types.Array)
+										}
+									}
+								case *ast.StarExpr:
+									ok = true
+								}
+								if !ok {
+									continue
+								}
+								siteID++
+								nPW++
+								siteTable = append(siteTable, fmt.Sprintf("%d\tmwrite\t%s\t%s\t%d\t%s", siteID, rel(fn), curFunc(), tf.Line(n.Pos()), text(lhs)))
+								edits = append(edits, edit{pos: off(n.End()), end: off(n.End()), text: fmt.Sprintf("; simrt.PW(&%s, %d)", text(lhs), siteID), prio: 4})
+							}
+						}
+					}
+					// every write into a map (m[k] = v, m[k] op= v): simrt.MW records which task of a
+					// concurrent run wrote which map, to find maps written by two renders
+					if n.Tok != token.DEFINE && len(funcStack) > 0 && funcStack[0] != "init" {
+						for _, lhs := range n.Lhs {
+							ix, isIx := lhs.(*ast.IndexExpr)
+							if !isIx || !pureExpr(ix.X) {
+								continue
+							}
+							t := p.TypesInfo.TypeOf(ix.X)
+							if t == nil {
+								continue
+							}
+							if _, isMap := t.Underlying().(*types.Map); !isMap {
+								continue
+							}
+							switch parent.(type) {
+							case *ast.BlockStmt, *ast.CaseClause, *ast.CommClause:
+								siteID++
+								nMW++
+								siteTable = append(siteTable, fmt.Sprintf("%d\tmwrite\t%s\t%s\t%d\t%s", siteID, rel(fn), curFunc(), tf.Line(n.Pos()), text(ix.X)))
+								edits = append(edits, edit{pos: off(n.End()), end: off(n.End()), text: fmt.Sprintf("; simrt.MW(%s, %d)", text(ix.X), siteID), prio: 3})
 							}
 							break
 						}
@@ -470,8 +589,8 @@ func main() {
 		rk = append(rk, k)
 	}
 	sort.Strings(rk)
-	fmt.Fprintf(os.Stderr, "rewriter: ranges=%d touches=%d (skipped %d) yields=%d locks=%d readfile=%d globalwrites=%d uncontrolled=%d pointer-keyed ranged map types=%d\n",
-		nRange, nTouch, len(skippedTouch), nY, nLock, nRead, nGW, len(uncontrolled), len(rk))
+	fmt.Fprintf(os.Stderr, "rewriter: ranges=%d touches=%d (skipped %d) yields=%d locks=%d readfile=%d globalwrites=%d mapwrites=%d pointerwrites=%d uncontrolled=%d pointer-keyed ranged map types=%d\n",
+		nRange, nTouch, len(skippedTouch), nY, nLock, nRead, nGW, nMW, nPW, len(uncontrolled), len(rk))
 	for _, s := range skippedTouch {
 		fmt.Fprintln(os.Stderr, "rewriter: WARNING touch skipped at", s)
 	}
